@@ -471,8 +471,12 @@ STREAM(vz_norm) {
                 if (j == 7) v = -((int64_t)1 << 62);
                 ll[i * nn + j] = v;
               }
-            for (uint64_t rsz : {(uint64_t)1, (uint64_t)2, longsz - 1, longsz / 2 + 1})
+            for (uint64_t rsz : {(uint64_t)1, (uint64_t)2, longsz - 1, longsz / 2 + 1}) {
               norm_vec_case(out, rng, mod, nn, k, ll, longsz, rsz, rng.below(2), 0, 0, 1);
+              // the big-coefficient wrapper on the same chains (out of place and in place)
+              MODULE* modb = get_module(nn, 0, rng.below(2));
+              norm_vec_case(out, rng, modb, nn, k, ll, longsz, rsz, 2, (int)rng.below(2), 0, 1);
+            }
           }
         }
         // range variant: begin/step triples
